@@ -294,8 +294,107 @@ def _filearr_view(a, *args):
 FileArr.view = _filearr_view
 
 
+class ListArr(object):
+    """small 1-d array of concrete length whose elements may be symbolic (list-backed)"""
+
+    def __init__(self, items, dtype=None):
+        self.items = list(items)
+        self.dtype_ = np.dtype(dtype) if dtype is not None else None
+
+    def sym_len(self):
+        return len(self.items)
+
+    def __len__(self):
+        return len(self.items)
+
+    def __iter__(self):
+        return iter(self.items)
+
+    @property
+    def dtype(self):
+        return self.dtype_
+
+    @property
+    def shape(self):
+        return (len(self.items),)
+
+    def all(self):
+        r = True
+        for x in self.items:
+            r = sym_and(r, x)
+        return r
+
+    def any(self):
+        r = False
+        for x in self.items:
+            r = sym_or(r, x)
+        return r
+
+    def __eq__(self, o):
+        if isinstance(o, ListArr):
+            if len(o.items) != len(self.items):
+                raise Unsupported("elementwise == of different lengths")
+            return ListArr([a == b for a, b in zip(self.items, o.items)], bool)
+        return ListArr([a == o for a in self.items], bool)
+
+    def __hash__(self):
+        return id(self)
+
+    def __repr__(self):
+        return "ListArr(%r)" % (self.items,)
+
+
+def _listarr_getitem(interp, a, k):
+    from .interp import ProgExc, SymSlice
+    if isinstance(k, slice):
+        return ListArr(a.items[k], a.dtype_)
+    if isinstance(k, SymSlice):
+        raise Unsupported("symbolic slice of small array")
+    if isinstance(k, int) or (hasattr(k, "__index__") and not is_sym(k)):
+        try:
+            return a.items[k]
+        except IndexError:
+            raise ProgExc(IndexError, "index")
+    if isinstance(k, SymInt):
+        n = len(a.items)
+        idx = k
+        if interp.truth(idx < 0):
+            idx = idx + n
+        for i in range(n):
+            if interp.truth(idx == i):
+                return a.items[i]
+        raise ProgExc(IndexError, "index")
+    raise Unsupported("small array index %r" % (k,))
+
+
+def _listarr_setitem(interp, a, k, v):
+    from .interp import ProgExc
+    if isinstance(k, int):
+        try:
+            a.items[k] = v
+        except IndexError:
+            raise ProgExc(IndexError, "index")
+        return
+    raise Unsupported("small array store at %r" % (k,))
+
+
+def m_cumsum(interp, a):
+    M.trusted("numpy.cumsum: running sums of the elements in order")
+    if isinstance(a, ListArr):
+        out = []
+        t = 0
+        for x in a.items:
+            t = t + x
+            out.append(t)
+        return ListArr(out, a.dtype_)
+    return np.cumsum(a)
+
+
 def m_zeros(interp, n, dtype=float):
     dt = np.dtype(dtype)
+    if not is_sym(n) and sym.get_state() is not None and isinstance(n, int) and 0 <= n <= 16 \
+            and dt.kind in "iu" and dt != np.dtype('uint8'):
+        return ListArr([0] * n, dt)
     if not is_sym(n):
         if isinstance(n, int) and n < 0:
             from .interp import ProgExc
@@ -349,9 +448,12 @@ def install(interp, m):
     table = {
         "zeros": lambda *a, **k: m_zeros(interp, *a, **k),
         "empty": lambda *a, **k: m_empty(interp, *a, **k),
+        "cumsum": lambda *a, **k: m_cumsum(interp, *a, **k),
     }
     interp.external["numpy"] = M.NpProxy(np, table)
     m[("getitem", FileArr)] = _filearr_getitem
+    m[("getitem", ListArr)] = _listarr_getitem
+    m[("setitem", ListArr)] = _listarr_setitem
     m[("getitem", BufView)] = _bufview_getitem
     m[("setattr", FileArr, "dtype")] = _filearr_set_dtype
     m[("setattr", BufView, "dtype")] = _bufview_setattr_dtype
